@@ -210,8 +210,7 @@ void GridGlobal::updateGrid(int depth, TypeDepth type, const std::vector<int> &a
         MultiIndexSet new_tensors = selectTensors((size_t) num_dimensions, depth, type, anisotropic_weights, rule, level_limits);
 
         if ((new_tensors - tensors).empty()){
-            clearRefinement();
-            updated_tensors = std::move(new_tensors);
+            clearRefinement(); // nothing new is proposed, do not keep a pending update without active tensors
         }else{
             new_tensors += tensors;
             if (rule == rule_customtabulated or rule == rule_gausspatterson) // throws if the table is too short, nothing is modified yet
